@@ -38,6 +38,26 @@ def mon_counter_allocate(args):
     return None
 
 
+def mon_next_id(args):
+    c = args["self"]
+    before = c.count
+    r = c.next_id
+    if r != before + 1 or c.count != before:
+        return f"next_id at {before}: {r}, count afterwards {c.count} (must not allocate)"
+    return None
+
+
+def mon_called_in(args):
+    b = args["self"]
+    stack, macros = list(b._macro_context__stack), dict(b._mappings_macros)
+    r = b.next_macro_opcode_called_in(args["if_incl_rel_path"], args["line_number"], args["column"])
+    if r is not b or tuple(b._next_macro_called_in) != (args["if_incl_rel_path"], args["line_number"], args["column"]):
+        return f"pending call position is {b._next_macro_called_in!r}"
+    if list(b._macro_context__stack) != stack or dict(b._mappings_macros) != macros:
+        return "next_macro_opcode_called_in touched the stack / the macro table"
+    return None
+
+
 def g_builder(rng, depth=None):
     b = SourceMapBuilder()
     for k in rng.sample(range(20), rng.randint(0, 4)):
@@ -141,6 +161,8 @@ def rep(args):
 NATIVE = {
     U + ":Counter.__call__": {"gen": lambda r: {"self": g_counter(r)}, "monitor": mon_counter_call, "repr": rep},
     U + ":Counter.allocate": {"gen": lambda r: {"self": g_counter(r), "num": r.randint(0, 9)}, "monitor": mon_counter_allocate, "repr": rep},
+    U + ":Counter.next_id": {"gen": lambda r: {"self": g_counter(r)}, "monitor": mon_next_id, "repr": rep},
+    SM + ":SourceMapBuilder.next_macro_opcode_called_in": {"gen": lambda r: {"self": g_builder(r), "if_incl_rel_path": r.choice([None, "f.exps"]), "line_number": r.randint(0, 9), "column": r.randint(0, 9)}, "monitor": mon_called_in, "repr": rep},
     SM + ":SourceMapBuilder.add_opcode": {"gen": lambda r: {"self": g_builder(r), "op_offset": r.randint(0, 25), "line_number": r.randint(0, 9), "column": r.randint(0, 9)}, "monitor": mon_add_opcode, "repr": rep},
     SM + ":SourceMapBuilder.add_macro_opcode": {"gen": lambda r: {"self": g_builder(r), "op_offset": r.randint(0, 25), "if_incl_rel_path": r.choice([None, "a.exps"]), "macro_name": "m", "line_number": r.randint(0, 9), "column": r.randint(0, 9)}, "monitor": mon_add_macro_opcode, "repr": rep},
     SM + ":SourceMapBuilder.macro_context__push": {"gen": lambda r: {"self": g_builder(r)}, "monitor": mon_push_pop, "repr": rep},
